@@ -473,12 +473,54 @@ def check(ctx, rep):
             if isinstance(node, ast.Name) and isinstance(node.ctx, ast.Store):
                 assigned.setdefault(node.id, []).append(_stmt_end(owner.node, node))
         for sub in owner.nested.values():
-            free = set(n.id for n in ast.walk(sub.node) if isinstance(n, ast.Name) and isinstance(n.ctx, ast.Load)) - set(sub.all_param_names())
+            free = _free_names(sub.node)
             created = (sub.node.lineno, sub.node.col_offset)
             for name in sorted(free):
                 later = [pos for pos in assigned.get(name, []) if pos >= created]
                 rep.ob("R-CAPTURE", "%s does not capture a variable re-bound later (%s)" % (sub.qualname, name), not later,
                        "closure %s refers to `%s`, which %s assigns again after the closure is created: when the closure runs later it sees the new value" % (sub.qualname, name, owner.qualname), where_of(sub))
+
+
+_SCOPES = (ast.FunctionDef, ast.AsyncFunctionDef, ast.Lambda, ast.ListComp, ast.SetComp, ast.DictComp, ast.GeneratorExp)
+
+
+def _free_names(scope):
+    """names a function / lambda / comprehension reads from an enclosing scope (python's scoping: a name bound
+    anywhere in a scope -- parameter, assignment, loop or comprehension target, import, def -- is local to it)"""
+    bound, used, declared = set(), set(), set()
+    if isinstance(scope, (ast.FunctionDef, ast.AsyncFunctionDef, ast.Lambda)):
+        a = scope.args
+        for x in a.posonlyargs + a.args + a.kwonlyargs + ([a.vararg] if a.vararg else []) + ([a.kwarg] if a.kwarg else []):
+            bound.add(x.arg)
+        body = scope.body if isinstance(scope.body, list) else [scope.body]
+        outer_exprs = list(a.defaults) + [d for d in a.kw_defaults if d is not None]
+    else:
+        body = [scope]
+        outer_exprs = []
+    stack = list(body)
+    first_iter = scope.generators[0].iter if not isinstance(scope, (ast.FunctionDef, ast.AsyncFunctionDef, ast.Lambda)) else None
+    while stack:
+        n = stack.pop()
+        if n is not scope and isinstance(n, _SCOPES + (ast.ClassDef,)):
+            if isinstance(n, (ast.FunctionDef, ast.AsyncFunctionDef, ast.ClassDef)):
+                bound.add(n.name)
+            if not isinstance(n, ast.ClassDef):
+                used |= _free_names(n)
+            continue
+        if isinstance(n, ast.Name):
+            (bound if isinstance(n.ctx, (ast.Store, ast.Del)) else used).add(n.id)
+        elif isinstance(n, (ast.Global, ast.Nonlocal)):
+            declared.update(n.names)
+        elif isinstance(n, ast.ExceptHandler) and n.name:
+            bound.add(n.name)
+        elif isinstance(n, (ast.Import, ast.ImportFrom)):
+            for al in n.names:
+                bound.add((al.asname or al.name).split(".")[0])
+        stack.extend(ast.iter_child_nodes(n))
+    free = (used - bound) | (declared & used)
+    for e in outer_exprs:
+        free |= set(x.id for x in ast.walk(e) if isinstance(x, ast.Name))
+    return free
 
 
 roles_MUT = ("append", "insert", "extend", "pop", "remove", "clear", "reverse", "sort", "update", "setdefault", "__setitem__")
